@@ -128,6 +128,21 @@ def Book.inv (b : Book) : Bool := b.iterLrs.all (fun kl => kl.2.length == b.iter
 
 /-! ### the reconstruction state -/
 
+/-- how `set_optimizer` treats a stored `_optimizer_params` dict -/
+inductive OptKind where
+  | ok        -- "adam" / "adamw" / "sgd" (any case) or an optimizer class, keywords the optimizer accepts
+  | none_     -- `"type": "none"`: `remove_optimizer()`
+  | unknown   -- any other type string: `NotImplementedError`
+  | badkw     -- a keyword the optimizer class rejects: `TypeError` from torch
+  deriving Repr, DecidableEq
+
+/-- a stored `_optimizer_params` dict: its classification, the remaining hyper-parameters (opaque code), `"lr"` (IEEE bits) -/
+structure OptCfg where
+  kind : OptKind
+  hyper : Nat
+  lr : Nat
+  deriving Repr, DecidableEq
+
 /-- one of the three models (object / probe / dataset): an `nn.Module` that carries its own
 optimizer, scheduler and constraints and is pickled as a whole -/
 structure ModelSt (θ μ σ : Type) where
@@ -137,6 +152,13 @@ structure ModelSt (θ μ σ : Type) where
   sched : Option σ
   /-- `_constraints` (values as opaque codes) -/
   cons : List (String × Nat)
+  /-- `_optimizer_params` (`{}` = `none`): what `reset_optimizer` / `set_optimizers` rebuild from.  It is stored
+  BEFORE the optimizer is built, so a rejected configuration stays here -/
+  optCfg : Option OptCfg := none
+  /-- `_scheduler_params` (`{}` = `none`; validated before it is stored): `(is "none", opaque code)` -/
+  schedCfg : Option (Bool × Nat) := none
+  /-- the values `reset()` restores (`initial_obj`, `_initial_probe`, initial positions / descan) -/
+  init : List θ := []
 
 structure Recon (θ μ σ : Type) where
   object : ModelSt θ μ σ
